@@ -138,6 +138,9 @@ def finish(prop, tier, seed, jobs, by_id, info, wall, known, write=True):
     print(f"[{prop} {tier}] jobs={len(jobs)} paths={tot['paths']} obligations={tot['obligations']} discharged={tot['discharged']} "
           f"inconclusive={tot['inconclusive']} out_of_bounds={tot['oob']} violations={nviol} canaries={canary_ok}/{canary_total} "
           f"z3_queries={tot['z3_queries']} z3_s={tot['z3_seconds']:.1f} wall={wall:.1f}s")
+    slow = sorted(((by_id[j["job_id"]].get("job_wall_s", 0), j["case"], json.dumps(j["params"])[:110]) for j in jobs if j["job_id"] in by_id), reverse=True)[:3]
+    for s in slow:
+        print(f"  slowest: {s[0]}s {s[1]} {s[2]}")
     for l in lines:
         print(l)
     return rc
